@@ -351,7 +351,7 @@ typedef struct
 {
     uintptr_t *out;
     size_t cap, n;
-    int mode; /* 0 owned, 1 const keys */
+    int mode; /* 0 owned, 1 const keys, 2 names whose constant-key flag contradicts where the name lives */
 } coll_t;
 
 static void coll_put(coll_t *c, const void *p)
@@ -378,9 +378,22 @@ static void collect(coll_t *c, const cJSON *n)
             coll_put(c, n->string);
         }
     }
-    else if (n->string != NULL && (n->type & cJSON_StringIsConst))
+    else if (c->mode == 1)
     {
-        coll_put(c, n->string);
+        if (n->string != NULL && (n->type & cJSON_StringIsConst))
+        {
+            coll_put(c, n->string);
+        }
+    }
+    else if (n->string != NULL)
+    {
+        /* a name flagged constant is borrowed: it must not be a block of the library's allocator; a name not flagged is owned: it must be one */
+        int live = ledger_is_live(n->string);
+        int flagged = (n->type & cJSON_StringIsConst) != 0;
+        if (live == flagged)
+        {
+            coll_put(c, n->string);
+        }
     }
     if (n->type & cJSON_IsReference)
     {
@@ -399,6 +412,20 @@ size_t tree_owned_ptrs(const cJSON *root, uintptr_t *out, size_t cap)
     c.cap = cap;
     c.n = 0;
     c.mode = 0;
+    if (root != NULL)
+    {
+        collect(&c, root);
+    }
+    return c.n;
+}
+
+size_t tree_name_flag_conflicts(const cJSON *root)
+{
+    coll_t c;
+    c.out = NULL;
+    c.cap = 0;
+    c.n = 0;
+    c.mode = 2;
     if (root != NULL)
     {
         collect(&c, root);
